@@ -191,6 +191,7 @@ func (c19) Table(rows []Ev, tier string, seed int64, rep *TableReport) {
 	}
 	trueCount := 0
 	for _, row := range rows {
+		tick([]Ev{row})
 		tin := GI(row["tin"])
 		cc := row["cc"].([]interface{})
 		probe := mkDesc(absDesc{Type: tin, Eid: 1, HasPTS: true, PTS: 5, SegNum: 1, SegExp: 1}, r, false)
